@@ -43,6 +43,15 @@ def reset_state():
 def gen_plan(prop, run_seed, tier):
     F = Forks(run_seed)
     w, s = F.fork("workload"), F.fork("schedule")
+    plan = _gen_one(w, s, tier)
+    if s.random() < 0.3 and not plan["multi"]:
+        # the same policy object then serves a second, differently laid out screen
+        second = _gen_one(w, s, tier)
+        plan["second_screen"] = second["screen"] if not second["multi"] else None
+    return plan
+
+
+def _gen_one(w, s, tier):
     n_samples = w.randint(1, 6)
     rows = []
     pno = 0
@@ -66,7 +75,7 @@ def gen_plan(prop, run_seed, tier):
         rows.append([r[0] + "x", [["d0", 1.0], ["d1", 1.0]], 0.5, r[3], r[4]])  # a second sample on one plate
     k = w.randint(1, 4)
     small = pno <= 6
-    return dict(engine="batchsim", prop=prop, screen=dict(control="", arity=2, rows=rows), k=k, max_len=3 * k,
+    return dict(engine="batchsim", prop="C16", screen=dict(control="", arity=2, rows=rows), k=k, max_len=3 * k,
                 path=s.choice(["func", "func", "func-reveal", "cli", "cli-reveal"]), multi=multi, seed=s.randrange(2**31),
                 enumerate=(tier == "thorough" and small and s.random() < 0.3), ties=s.random() < 0.3)
 
@@ -138,16 +147,24 @@ def _judge_state(k, table, batch, allowed, violation, stats, where):
 
 
 def _run(plan, scratch, log, stats, violation):
+    RP = scoresim.REC["policy"]
+    RP.config = dict(kind="kper", k=plan["k"], reuse=bool(plan["seed"] % 2) or bool(plan.get("second_screen")))
+    ok = _run_screen(plan, plan["screen"], scratch, log, stats, violation)
+    if ok and plan.get("second_screen"):
+        stats.probe("policy_object_reused_on_second_screen")
+        _run_screen(plan, plan["second_screen"], scratch, log, stats, violation)
+
+
+def _run_screen(plan, spec, scratch, log, stats, violation):
     from batchie.data import Screen
     from batchie.retrospective import reveal_plates
     from batchie.scoring.main import ChunkedScoresHolder, select_next_plate
 
     RP = scoresim.REC["policy"]
     k = plan["k"]
-    screen = gen.make_screen(plan["screen"])
+    screen = gen.make_screen(spec)
     table = _plate_table(screen)
     rnd = sub_rng(plan["seed"], "batch")
-    RP.config = dict(kind="kper", k=k, reuse=bool(plan["seed"] % 2))
     path = plan["path"]
     spath = scratch.file("screen.h5")
     screen.save_h5(spath)
@@ -194,7 +211,7 @@ def _run(plan, scratch, log, stats, violation):
             one_selection(screen, spath, [], lambda a: a[0])
         except ValueError:
             stats.probe("multi_sample_plate_refused")
-            return
+            return False
         except pipe.HarnessError:
             raise
         except Exception as e:
@@ -274,6 +291,7 @@ def _run(plan, scratch, log, stats, violation):
         stats.key(k, pps, path, len(trace), plan["enumerate"])
     if len(trace) >= k and k > 1:
         stats.probe("sample_completed_with_k_gt_1")
+    return ok
 
 
 def reducers(prop, plan):
